@@ -169,6 +169,34 @@ def check(ctx: Ctx) -> None:
     else:
         ctx.violation("R13.2", "_extract_peaks:residues", LM, ep.node, "poles/residues must come from eig(Ak, Ek) with B̃ = X⁻¹E⁻¹B and C̃ = C X")
 
+    ctx.instance("R13.2", "eigenvalue k stays paired with eigenvector column k between eig(…) and the residues")
+    eg = [n for n in walk_ordered(ep.node) if isinstance(n, (ast.Assign, ast.AnnAssign)) and n.value is not None and isinstance(n.value, ast.Call) and dotted(n.value.func).split(".")[-1] == "eig"]
+    if len(eg) != 1 or not isinstance(eg[0].targets[0] if isinstance(eg[0], ast.Assign) else eg[0].target, ast.Tuple):
+        raise AnalysisError("_extract_peaks: (eigenvalues, eigenvectors) = eig(…) not found")
+    vals, vecs = [norm(e) for e in (eg[0].targets[0] if isinstance(eg[0], ast.Assign) else eg[0].target).elts]
+    seq2 = [id(x) for x in walk_ordered(ep.node)]
+    reb = {}
+    for n in walk_ordered(ep.node):
+        if isinstance(n, (ast.Assign, ast.AnnAssign, ast.AugAssign)) and n is not eg[0] and seq2.index(id(n)) > seq2.index(id(eg[0])):
+            tg_ = n.targets[0] if isinstance(n, ast.Assign) else n.target
+            if norm(tg_) in (vals, vecs) or (isinstance(tg_, ast.Subscript) and norm(tg_.value) in (vals, vecs)):
+                reb.setdefault(norm(tg_.value) if isinstance(tg_, ast.Subscript) else norm(tg_), []).append(n)
+    paired = True
+    why = ""
+    if reb:
+        # the only admissible rebinding is one common permutation: vals = vals[idx]; vecs = vecs[:, idx]
+        a, b = reb.get(vals, []), reb.get(vecs, [])
+        paired = len(a) == 1 and len(b) == 1 and isinstance(a[0], (ast.Assign, ast.AnnAssign)) and isinstance(b[0], (ast.Assign, ast.AnnAssign)) \
+            and isinstance(a[0].value, ast.Subscript) and isinstance(b[0].value, ast.Subscript) and norm(a[0].value.value) == vals and norm(b[0].value.value) == vecs \
+            and isinstance(b[0].value.slice, ast.Tuple) and len(b[0].value.slice.elts) == 2 and norm(b[0].value.slice.elts[0]) == ":" \
+            and norm(b[0].value.slice.elts[1]) == norm(a[0].value.slice)
+        why = f"{[norm(x) for x in a + b]}"
+    if paired:
+        ctx.ok()
+    else:
+        ctx.violation("R13.2", "_extract_peaks:eig-pairing", LM, (reb.get(vecs) or reb.get(vals))[0],
+                      f"after eig(…) the eigenvalues and the eigenvector matrix are re-arranged inconsistently ({why}): eigenvalue k must stay with column k (vals[idx] with vecs[:, idx]), otherwise the residues belong to other poles")
+
     # ---------------- R13.3 / R13.4 (m(RQ)fit) ------------------------------------------
     tg = model.fi(MRQ, "_calculate_tau_gamma")
     R_, Y_, n_, Wd = sp.symbols("R Y n W", positive=True)
@@ -177,6 +205,13 @@ def check(ctx: Ctx) -> None:
     tau0 = None
     branches: List[sp.Expr] = []
     for n in walk_ordered(tg.node):
+        if isinstance(n, (ast.Assign, ast.AnnAssign)) and n.value is not None and isinstance(n.targets[0] if isinstance(n, ast.Assign) else n.target, ast.Name) \
+                and norm(n.targets[0] if isinstance(n, ast.Assign) else n.target) not in ("tau_0", "R", "Y", "n", "W", "tau", "gamma", "parameters"):
+            # auxiliary locals (e.g. a hoisted ln(tau)) are bound when they evaluate in the term fragment
+            try:
+                env2[norm(n.targets[0] if isinstance(n, ast.Assign) else n.target)] = ti2.ev(n.value, env2)
+            except Exception:
+                pass
         if isinstance(n, (ast.Assign, ast.AnnAssign)) and n.value is not None and norm(n.targets[0] if isinstance(n, ast.Assign) else n.target) == "tau_0":
             tau0 = sp.sympify(ti2.ev(n.value, env2))
             env2["tau_0"] = tau0
@@ -227,6 +262,23 @@ def check(ctx: Ctx) -> None:
         ctx.ok()
     else:
         ctx.violation("R13.3", "_calculate_tau_gamma:RQ-area", MRQ, tg.node, "the (RQ) distribution does not integrate over ln τ to the element's resistance")
+    # each (RQ)/(RC) pair contributes with its own parameters: the dictionary the values are collected in is fresh per pair
+    ctx.instance("R13.3", "each parallel pair is evaluated with its own parameter values (no values carried over from the previous pair)")
+    ups = [c for c in calls_in(tg.node) if isinstance(c.func, ast.Attribute) and c.func.attr == "update" and c.args and "get_values()" in norm(c.args[0])]
+    outer = [n for n in walk_ordered(tg.node) if isinstance(n, ast.For) and norm(n.iter) == "connections"]
+    if len(ups) != 1 or len(outer) != 1:
+        raise AnalysisError("_calculate_tau_gamma: parameter collection loop not found")
+    D_ = norm(ups[0].func.value)
+    binds = [n for n in walk_ordered(tg.node) if isinstance(n, (ast.Assign, ast.AnnAssign)) and n.value is not None and norm(n.targets[0] if isinstance(n, ast.Assign) else n.target) == D_]
+    seq = [id(x) for x in walk_ordered(tg.node)]
+    fresh = [b for b in binds if any(x is b for x in outer[0].body) and norm(b.value) in ("{}", "dict()") and seq.index(id(b)) < seq.index(id(ups[0]))]
+    reads = [n for n in walk_ordered(outer[0]) if isinstance(n, (ast.Assign, ast.AnnAssign)) and n.value is not None and f"{D_}[" in norm(n.value) or
+             (isinstance(n, (ast.Assign, ast.AnnAssign)) and n.value is not None and f"{D_}.get(" in norm(n.value))]
+    if fresh and len(reads) >= 3:
+        ctx.ok()
+    else:
+        ctx.violation("R13.3", "_calculate_tau_gamma:stale-parameters", MRQ, ups[0],
+                      f"the dictionary {D_} that collects an (RQ)/(RC) pair's values is not re-created for every pair: an (RC) pair that follows an (RQ) pair is evaluated with the previous pair's Y and n")
     # R13.4 degrees: Z→cZ means R→cR, Y→Y/c; f→kf means τ→τ/k, Y→Y/k^n
     c, k = sp.symbols("c k", positive=True)
     for name, term in (("(RC) γ", gauss), ("(RQ) γ", rq)):
